@@ -721,14 +721,29 @@ func cmdBare1(args []string) {
 	shards := fs.Int("shards", 16, "shards")
 	n := fs.Int("n", 600, "Steps per shard")
 	seed := fs.Int64("seed", 1, "seed")
+	ctl := fs.Bool("ctl", false, "only jumps, calls, returns, RST, PUSH/POP, JP (rr): operands and stack words on the memory's end")
 	fs.Parse(args)
+	ctlOps := []int{0xc3, 0xcd, 0xc9, 0x18, 0x10, 0xe9, 0xc5, 0xd5, 0xe5, 0xf5, 0xc1, 0xd1, 0xe1, 0xf1}
+	for y := 0; y < 8; y++ {
+		ctlOps = append(ctlOps, 0xc2+y*8, 0xc4+y*8, 0xc0+y*8, 0xc7+y*8)
+		if y < 4 {
+			ctlOps = append(ctlOps, 0x20+y*8)
+		}
+	}
 	lens := []int{65536, 32768, 65535, 256, 4096, 65536}
 	for sh := 0; sh < *shards; sh++ {
 		r := rand.New(rand.NewSource(*seed*8191 + int64(sh)))
 		f, w := openShard(*out, sh)
 		for i := 0; i < *n; i++ {
 			k := (i*7 + sh*131) % (NTables * 256)
+			if *ctl {
+				k = ctlOps[(i+sh*5)%len(ctlOps)]
+				if i%9 == 8 {
+					k = []int{3*256 + 0xe9, 4*256 + 0xe9, 3*256 + 0xe5, 4*256 + 0xe1, 2*256 + 0x45, 2*256 + 0x4d}[r.Intn(6)]
+				}
+			}
 			is := RandInit(r, k/256, k%256)
+			is.Pend = []int{}
 			is.Bare = true
 			L := 65536
 			switch i % 4 {
@@ -748,8 +763,11 @@ func cmdBare1(args []string) {
 			if r.Intn(3) == 0 && L == 65536 {
 				pc = []int{0xfffc, 0xfffd, 0xfffe, 0xffff}[r.Intn(4)]
 			}
-			if r.Intn(4) == 0 && L < 65536 { // the instruction running off the end of a short memory (reads 0 there)
+			if (r.Intn(4) == 0 || *ctl && r.Intn(2) == 0) && L < 65536 { // the instruction running off the end of a short memory (reads 0 there)
 				pc = (L - 3 + r.Intn(6)) & 0xffff
+			}
+			if *ctl {
+				is.R[1] = []int{0x00, 0xff, 0x45, 0x80, 0x01}[r.Intn(5)] // conditions taken and untaken
 			}
 			edge := func() int { return (L - 2 + r.Intn(4)) & 0xffff }
 			old := is.R[21]
